@@ -349,6 +349,11 @@ fn eval_builtin_incstr(
         }
     };
 
+    if bigint_size == 0 && query.args.len() < 2
+    {
+        return Ok(expr::Value::make_integer(util::BigInt::from_bytes_be(&[])));
+    }
+
     if (start * bits_per_char) >= bigint_size
     {
         query.report.error_span(
